@@ -61,6 +61,7 @@ class Ctx:
         self.instances = []     # dicts
         self.findings = []      # (full key, Violation, instance dict)
         self.notes = []
+        self.notices = []       # (full key, Violation, instance dict) of advisory instances
         self.t0 = time.time()
         self.analysed = {}
 
@@ -71,7 +72,7 @@ class Ctx:
                                  'tree': self.P.tree_hash}
         return self.P
 
-    def check(self, kind, name, func, floor=0, configs=None):
+    def check(self, kind, name, func, floor=0, configs=None, advisory=False):
         """evaluate one rule instance. `func(P)` returns Res. Fails closed on a missing anchor
         and on fewer matched sites than `floor` (the count confirmed by hand when armed)."""
         if configs is not None and self.config not in configs:
@@ -98,13 +99,23 @@ class Ctx:
             r.bad('below-floor', 'rule matched %d site(s), fewer than the %d confirmed when the rule was armed'
                   % (len(r.sites), floor))
         seen = set()
+        # an advisory instance compares reviewed STRUCTURE with the current one; its drift is printed as a REVIEW line and recorded
+        # in the evidence but is not a verdict on the property (a harmless rewrite changes structure too). Failing closed (missing
+        # table, analysis error) stays a violation. VERIF_STRICT_INVENTORIES=1 turns drift into violations.
+        soft = advisory and not os.environ.get('VERIF_STRICT_INVENTORIES')
         for v in r.violations:
             full = base + '|' + v.key
             if (full, self.config) in seen:
                 continue
             seen.add((full, self.config))
+            if soft and v.key not in ('baseline-missing', 'internal-error', 'anchor-missing', 'below-floor'):
+                inst['verdict'] = 'drift'
+                self.notices.append((full, v, inst))
+                continue
             inst['verdict'] = 'violated'
             self.findings.append((full, v, inst))
+        if advisory:
+            inst['advisory'] = True
         self.instances.append(inst)
         return r
 
@@ -175,10 +186,17 @@ def finish(ctx, level, explanation, assumptions, technique, extra_cov=None, seed
         print('  %s' % v.msg)
         for w in (v.where or [])[:8]:
             print('    at %s' % w)
+    nk = {}
+    for full, v, inst in ctx.notices:
+        nk.setdefault(full, (v, inst))
+    for full, (v, inst) in sorted(nk.items()):
+        print('REVIEW property=%s rule=%s key=%s' % (ctx.prop, inst['kind'], full))
+        print('  %s' % v.msg[:400])
     # evidence
     insts = ctx.instances
     nontrivial = len(set((i['kind'], i['name']) for i in insts if i['n_sites'] > 0))
     holds = sum(1 for i in insts if i['verdict'] == 'holds')
+    drift = sum(1 for i in insts if i['verdict'] == 'drift')
     samples = []
     for i in insts:
         if len(samples) >= 12:
@@ -196,6 +214,8 @@ def finish(ctx, level, explanation, assumptions, technique, extra_cov=None, seed
         'obligations': len(insts),
         'discharged': holds,
         'known_findings_hit': len(known_hit),
+        'review_notices': {'count': len(nk), 'keys': sorted(nk)[:20],
+                           'meaning': 'drift of reviewed structure reported by advisory instances; not a verdict'},
         'exhaustive': True,
         'samples': samples or [{'note': 'no instance matched a site'}],
         'configurations': ctx.analysed,
@@ -225,6 +245,7 @@ def finish(ctx, level, explanation, assumptions, technique, extra_cov=None, seed
     os.makedirs(evdir, exist_ok=True)
     with open(os.path.join(evdir, ctx.prop + '.json'), 'w') as fh:
         json.dump(ev, fh, indent=1)
-    print('%s: %d rule instances over configs %s; %d hold, %d known finding(s), %d violation(s); %.1fs'
-          % (ctx.prop, len(insts), ','.join(ctx.analysed), holds, len(known_hit), len(viol), time.time() - ctx.t0))
+    print('%s: %d rule instances over configs %s; %d hold, %d known finding(s), %d violation(s)%s; %.1fs'
+          % (ctx.prop, len(insts), ','.join(ctx.analysed), holds, len(known_hit), len(viol),
+             (', %d advisory instance(s) report drift' % drift) if drift else '', time.time() - ctx.t0))
     return 1 if viol else 0
